@@ -1,4 +1,51 @@
-"""property -> units, scope, unverified parts (DESIGN.md sections 1 and 5)"""
+"""property -> units, scope decided, unverified parts, trust notes (DESIGN.md sections 1, 5, 8)"""
+import cex
+
+CONC = 'mutual exclusion of std::sync::RwLock (each ActivePeers method body is one lock acquisition: checked as a borrow, X8)'
+
 PROPERTIES = {
-    'C04': dict(units=['active_peers'], scope='', unverified=[], assumptions=[]),
+    'C04': dict(
+        units=['active_peers'],
+        thorough_units=['kani_peers_bounded'],
+        canaries=['active_peers'],
+        scope='every clause of C04 for every SEQUENTIAL history of operations on the active-peer set: each real mutating function is '
+              'proved equal to a spec transition from an arbitrary pre-state; lemmas prove that every transition preserves the '
+              'representation invariant (event log strictly replays to the listing; one entry per peer; no stored connection closed; '
+              'distinct stable ids), that a snapshot at any point plus later events reproduces the listing, and that the exit of a '
+              'replaced/closed connection is a no-op. Linearisation of concurrent callers is the RwLock (assumed).',
+        unverified=['interleavings of threads (reduced to sequential histories by the lock, assumed)',
+                    'broadcast channel lag: a subscriber slower than the channel capacity receives Lagged',
+                    'ActivePeersInner::peers (keys().copied().collect()) is an assumed contract in Verus; bounded Kani stand-in in the thorough tier',
+                    'quinn stable ids are unique per endpoint (assumption A-sid, precondition fresh(c) of the invariant lemma)',
+                    'that InboundRequestHandler::start reaches its tail whenever the connection ends (liveness)'],
+        assumptions=[CONC, 'tokio broadcast: send appends, a receiver created under the lock sees exactly the later events'],
+    ),
+    'C05': dict(
+        units=['active_peers', 'kani_tiebreak'],
+        canaries=['active_peers'],
+        counterexample=cex.cex_c05,
+        scope='the tie-break keeps the connection dialed by the greater PeerId: proved for the real function over all 2^512 id pairs '
+              '(Kani, full domain, real derived Ord) and as a Verus contract; convergence lemmas over the contract of add(): both nodes, '
+              'both arrival orders -> same surviving dialer, exactly the loser closed, events New or New,Lost(Requested),New, late exit of '
+              'the loser ignored (stable id).',
+        unverified=['that both handshakes complete and RPCs succeed afterwards (liveness / quinn)',
+                    'delivery order of close notifications is covered only through: any later remove_with_stable_id(loser) is a no-op'],
+        assumptions=[CONC, 'the order axiom used by Verus (derived PartialOrd on PeerId = lexicographic on bytes) is PROVED by Kani harness derived_order_is_lexicographic on the real type'],
+    ),
+}
+
+HOOK_COMMITS = ['5546537']
+NOTES = ('Every check re-extracts the functions it depends on from /repo\'s working tree, renders them with contracts and runs the verifiers; '
+         'exit 0 held, exit 1 VIOLATION, exit 2 undecided (lost anchor / construct the verifier rejects / timeout) - never an alarm.')
+PENDING = 'within reach of the technique (DESIGN.md section 5) but its unit is not built yet; not claimed until it runs green with guards'
+NOT_APPLICABLE = {
+    'C01': PENDING, 'C02': PENDING, 'C03': PENDING, 'C06': PENDING, 'C07': PENDING, 'C09': PENDING, 'C10': PENDING, 'C11': PENDING,
+    'C13': PENDING, 'C15': PENDING, 'C20': PENDING,
+    'C08': 'shutdown: task joins, channel closure, socket release and runtime teardown at every point in time; no function-level contract expresses it and neither verifier models tokio tasks or Drop ordering (DESIGN.md section 6)',
+    'C12': 'cancellation: when a remote handler is dropped relative to a caller\'s cancellation and QUIC stream credit return are scheduling + quinn flow control; nothing in reach decides a sentence of it (section 6)',
+    'C14': 'network names: decided inside rustls SNI resolver / webpki name matching reached through iterator+closure pipelines Verus rejects and Kani cannot execute (X.509 parsing, anyhow) (section 6)',
+    'C16': 'routing: matching is the third-party matchit trie; router construction uses dyn Any downcasts, boxed trait objects, BTreeMap: outside both verifiers (section 6)',
+    'C17': 'generated clients: quantifies over programs built with quote!/format! token streams; no verifier here reasons about proc-macro output (section 6)',
+    'C18': 'in-flight limit: the bound is the tokio semaphore under concurrency and implicit-Drop timing of permits; Kani has no threads, Verus cannot observe drop points (section 6)',
+    'C19': 'rate limit: the admitted-count bound is governor\'s GCRA over real time; only one sequential clause is in reach, which would leave the property undecided (section 6)',
 }
